@@ -110,6 +110,8 @@ def shards(tier, seed):
     out += [('paths', t, 3 if tier == 'quick' else 4) for t in PATH_TOKENS]
     # the same search on an application that has a scoped 404 handler (app.error(404, '/x')): 405 stays 405 under its prefix
     out += [('scoped', i, 2 if tier == 'quick' else 3) for i in range(0, len(m), 4)]
+    # ... and on an application whose route hook below /x lets the application serve a request of its own first (GET /y)
+    out += [('reenter', i, 2 if tier == 'quick' else 3) for i in range(0, len(m), 4)]
     # seed extension: a third editable rule / another method joins the menu at depth 3
     out.append(('extra', seed % 3, 3))
     return out
@@ -203,7 +205,12 @@ SCOPED = [False]
 
 def build(om, hist):
     app = om.Ombott()
-    if SCOPED[0]:
+    if SCOPED[0] == 'reenter':
+        def sub_request_hook(prefix):
+            if not app.request.environ.get('c02.inner'):
+                wsgi.call(app, wsgi.environ('GET', '/y', **{'c02.inner': True}))      # an internal sub-request, then on with the outer one
+        app.on_route('/x', sub_request_hook)
+    elif SCOPED[0]:
         @app.error(404, '/x')
         def scoped_404(route, params):
             app.response.status = 404
@@ -311,7 +318,7 @@ EXTRA_PATHS = []
 
 
 def work(spec):
-    SCOPED[0] = spec[0] == 'scoped'
+    SCOPED[0] = {'scoped': True, 'reenter': 'reenter'}.get(spec[0], False)
     try:
         return _work(spec)
     finally:
@@ -335,7 +342,7 @@ def _work(spec):
                  [('route', '/x/{p}/z', 'ANY', False), ('route', '/x/{p}/z', 'HEAD', False), ('rm', '/x/{p}/z', 'ANY')]][a]
         m = m[:14] + extra
         first = extra
-    elif kind == 'scoped':
+    elif kind in ('scoped', 'reenter'):
         first = m[a:a + 4]
     else:
         first = [m[a]]
@@ -408,12 +415,14 @@ def _norm(op):
 
 
 def replay(case):
-    SCOPED[0] = bool(case.get('scoped'))
+    SCOPED[0] = case.get('scoped') or False
     try:
         r = _replay(case)
     finally:
         SCOPED[0] = False
-    if r and case.get('scoped'):
+    if r and case.get('scoped') == 'reenter':
+        r = "application whose route hook on '/x' first lets the application itself serve GET /y: " + r
+    elif r and case.get('scoped'):
         r = "application with a scoped 404 handler (app.error(404, '/x')): " + r
     return r
 
